@@ -22,14 +22,23 @@ def warm_up():
             ra[idx]
         except Exception:
             pass
-    ra[0, 0] = 7
+    # (a warm-up that fails is not the harness's business: the cases below will show the defect)
+    steps = [lambda: ra.__setitem__((0, 0), 7)]
     # conversions of matrices of every small shape (anything remembered per shape for the first configuration would show later)
     for r in range(0, 6):
         for c in range(0, 6):
-            m = RaggedArray.from_numpy_array(np.arange(r * c).reshape(r, c))
-            if r:
-                m[r - 1]; m[::-1]; m.to_numpy_array()
-    (ra + 1).sum(axis=-1); ra.sum(axis=0); np.cumsum(ra, axis=-1); ra.sort(axis=-1); np.concatenate([ra, ra]); ra.nonzero()
+            def conv(r=r, c=c):
+                m = RaggedArray.from_numpy_array(np.arange(r * c).reshape(r, c))
+                if r:
+                    m[r - 1]; m[::-1]; m.to_numpy_array()
+            steps.append(conv)
+    steps += [lambda: (ra + 1).sum(axis=-1), lambda: ra.sum(axis=0), lambda: np.cumsum(ra, axis=-1), lambda: ra.sort(axis=-1),
+              lambda: np.concatenate([ra, ra]), lambda: ra.nonzero()]
+    for st in steps:
+        try:
+            st()
+        except Exception:
+            pass
 
 
 def main():
